@@ -14,16 +14,16 @@ from pbmon.oracle import gmaplaws as O
 
 PROPERTY = "C11"
 NSHARDS = {"quick": 4, "thorough": 16}
-CLAUSES = {
-    "C11.returns": 5000,
-    "C11.mapfn.range": 3000, "C11.mapfn.definition": 3000, "C11.mapfn.monotone": 800, "C11.mapfn.fixed": 800,
-    "C11.mapfn.inverse": 400, "C11.mapfn.inverse.r": 800,
-    "C11.state.sorted": 300,
-    "C11.interp.own": 400, "C11.interp.linear": 400, "C11.interp.order": 250, "C11.interp.absent": 400,
-    "C11.interp.gmap": 400,
-    "C11.dist.pairwise": 800, "C11.dist.additive": 300, "C11.dist.sequential": 800, "C11.dist.phys": 800,
-    "C11.rprob": 1500, "C11.roworder": 1500,
-    "C11.xoprob.genpos": 400, "C11.xoprob.start": 400, "C11.xoprob.value": 300,
+CLAUSES = {   # minimum = ~30 % of what a quick run evaluates
+    "C11.returns": 100000,
+    "C11.mapfn.range": 50000, "C11.mapfn.definition": 50000, "C11.mapfn.monotone": 5000, "C11.mapfn.fixed": 12000,
+    "C11.mapfn.inverse": 5000, "C11.mapfn.inverse.r": 18000,
+    "C11.state.sorted": 3000,
+    "C11.interp.own": 2500, "C11.interp.linear": 1300, "C11.interp.order": 1400, "C11.interp.absent": 2300,
+    "C11.interp.gmap": 1800,
+    "C11.dist.pairwise": 5400, "C11.dist.additive": 1600, "C11.dist.sequential": 5400, "C11.dist.phys": 3600,
+    "C11.rprob": 14000, "C11.roworder": 10000,
+    "C11.xoprob.genpos": 3600, "C11.xoprob.start": 1800, "C11.xoprob.value": 3000,
 }
 HOOKS_REQUIRED = ["mapfn.post", "mapfn.post.internal"]
 RULE = ("seeded class-based generators.  mapfn family: distance arrays (uniform [0,3] M, cM-scale, tiny incl. denormals, "
@@ -32,8 +32,9 @@ RULE = ("seeded class-based generators.  mapfn family: distance arrays (uniform 
         "positions (dense / typical / huge / adjacent), genetic positions congruent, congruent with plateaus, or "
         "non-congruent (counted class), units M or cM, rows supplied in two independent random orders, built by constructor, "
         "from_pandas or with auto_group=False, both map classes, int32/int64 labels; query sets with markers of the map, "
-        "positions strictly between flanking markers, beyond the terminal markers, duplicates and absent chromosomes; both "
-        "genotype-matrix classes for interp_xoprob.  Non-trivial: a map case always is (>= 2 markers); a mapfn case is when "
+        "positions strictly between flanking markers, beyond the terminal markers, duplicates and absent chromosomes; maps "
+        "produced by interp_gmap are re-used as maps when their rows qualify; both genotype-matrix classes (half of them "
+        "carrying stale positions/probabilities) for interp_genpos/interp_xoprob.  Non-trivial: a map case always is (>= 2 markers); a mapfn case is when "
         "it has >= 2 distances.  distinct = digest of the full generated inputs.")
 ASSUME = [
     "map functions are the textbook ones: Haldane r=(1-exp(-2d))/2, Kosambi r=tanh(2d)/2 (d in Morgans)",
@@ -49,6 +50,8 @@ ASSUME = [
     "crossover probabilities: exact 0.5 at the first variant of each chromosome of the grouped matrix; other entries are "
     "compared where the consecutive distance is >= 0 and not missing",
     "an exception on an in-domain call is a violation (the property promises values), key clause C11.returns",
+    "a map returned by interp_gmap is itself a genetic map: when its rows qualify (>= 2 per chromosome, distinct physical "
+    "positions, none missing) the own-marker law is demanded of it; the row order of that product is not fixed",
 ]
 TRUSTED = ["pbmon/oracle/gmaplaws.py", "numpy.expm1 / math.expm1 / math.tanh as reference transcendental functions"]
 
@@ -540,12 +543,17 @@ def case_map(ctx, c):
             per = {x: qc.tolist().count(x) for x in set(qc.tolist())}
             if gm_ok and not ab.any() and len(set(rows)) == len(rows) and min(per.values()) >= 2:
                 pcls = "map produced by interp_gmap"
-                ok, back = guarded(ctx, S("interp_gmap"), pcls, coords, lambda: im.interp_genpos(qc, qp), WQ)
-                if ok:
-                    ctx.check("C11.interp.own", O.agree(back, qg, O.scale_of(qg))[0], S("interp_gmap"),
-                              "product map interpolates its own rows to its stored positions", pcls,
-                              witness=dict(WQ, stored=qg, got=back), coords=coords)
-                    ctx.sumnote("interp_gmap products re-interpolated")
+                try:   # raising and returning something else are the same broken promise here: one key per class
+                    back = im.interp_genpos(qc, qp); exc = None
+                    good = O.agree(back, qg, O.scale_of(qg))[0]
+                except Exception as e:
+                    ctx.raised(S("interp_gmap") + " product.interp_genpos", e)
+                    back = None; good = False; exc = "%s: %s" % (type(e).__name__, str(e)[:160])
+                ctx.check("C11.interp.own", good, S("interp_gmap"), "product map interpolates its own rows to its stored positions", pcls,
+                          what=None if exc is None else "map returned by %s cannot interpolate its own rows: %s" % (S("interp_gmap"), exc),
+                          witness=dict(WQ, stored=qg, got=back, exception=exc, product_is_grouped=bool(im.is_grouped()),
+                                       product_stix=im.vrnt_chrgrp_stix, product_spix=im.vrnt_chrgrp_spix), coords=coords)
+                ctx.sumnote("interp_gmap products re-interpolated")
 
         # ---- distances.  Sequential functions need input sorted by (chromosome, genetic position)
         o = numpy.lexsort((qp, qg, qc)) if not congruent else numpy.lexsort((qg, qp, qc))
